@@ -428,6 +428,10 @@ func shapes() []shape {
 			return fmt.Sprintf("bs := []int{1, 2, 3, 4, 5, 6}\n\tn := %s\n\toff := %s\n\tfor i := 0; i < n; i++ {\n\t\tbs[i] = bs[off+i]\n\t}\n\treturn fmt.Sprint(bs)", g.pick("2", "x", "3"), g.pick("2", "y", "3", "4"))
 		}},
 		{"S1021", func(g *gen) string {
+			if g.r.Chance(40) {
+				// an assignment OPERATION after the declaration is not a plain initialisation
+				return "var v int\n\tv " + g.pick("-=", "+=", "&^=", "/=", "|=", "^=") + " " + g.pick("x", "ti(1, x)", "y + 1") + "\n\treturn v"
+			}
 			return "var v int\n\tv = " + g.intExpr(2) + "\n\treturn v"
 		}},
 		{"S1033", func(g *gen) string {
@@ -570,6 +574,14 @@ var directed = map[string][]string{
 		"n := 0\n\tswitch {\n\tcase y > 0:\n\t\tif x == 1 {\n\t\t\tn += 1\n\t\t} else if x == 2 {\n\t\t\tn += 2\n\t\t} else {\n\t\t\tbreak\n\t\t}\n\t\tn += 10\n\t}\n\treturn n", // break inside a switch case
 		"v := pairA{x, \"a\"}\n\tr := 0\n\tif (pairA{1, \"a\"}) == v {\n\t\tr = 1\n\t} else if (pairA{2, \"a\"}) == v {\n\t\tr = 2\n\t}\n\treturn r", // composite literals differing only in elements
 		"r := 0\n\tif x == 1 {\n\t\tr = 1\n\t} else if x == 1 || x == 2 {\n\t\tr = 2\n\t}\n\treturn r", // duplicate constants
+	},
+	"S1021": {
+		"var v int\n\tv -= ti(1, x)\n\tvar w int\n\tw &^= y\n\tvar u int\n\tu /= x\n\treturn fmt.Sprint(v, w, u)",
+		"var v int\n\tv += x\n\tvar w int\n\tw = x - y\n\treturn v + w",
+	},
+	"S1034": {
+		"var v any = x\n\tif q {\n\t\tv = int8(y)\n\t}\n\tif p && q {\n\t\tv = s\n\t}\n\tswitch v.(type) {\n\tcase string:\n\t\treturn v.(string) + \"!\"\n\tcase int, int8:\n\t\treturn fmt.Sprint(v.(int))\n\t}\n\treturn nil",   // several types in one clause: x is not narrowed there
+		"var v any = x\n\tif q {\n\t\tv = int8(y)\n\t}\n\tswitch v.(type) {\n\tcase string:\n\t\treturn len(v.(string))\n\tcase int8, int:\n\t\treturn v.(int) * 2\n\tdefault:\n\t\treturn fmt.Sprint(v)\n\t}",
 	},
 	"S1033": {
 		"m := map[int]int{1: 1, 2: 2}\n\tif _, ok := m[next()]; ok {\n\t\tdelete(m, next())\n\t}\n\treturn fmt.Sprint(m)",
